@@ -119,6 +119,13 @@ def menu():
         add(o, ['/nonexistent/dir/x', os.path.join(TMP, 'o.txt'), ''])
     add('--mininec-version', ['9', '12', '13', '10'])
     M.append(('-T', None))
+    # degenerate / duplicate geometry derived from the base itself
+    M.append(('DUP-FIRST-WIRE', 'same'))
+    M.append(('DUP-FIRST-WIRE', 'reversed'))
+    M.append(('DUP-FIRST-WIRE', 'half'))
+    M.append(('-w+', '3,0.05,0.05,0.05,0.06,0.05,0.05,.002'))       # a second, very short wire far from resonance
+    M.append(('-w+', '2,0,0,2.5,3,0,2.5,.002'))                      # a wire crossing the first one of the dipole base
+    M.append(('--trap-load+', '0,1e-6,1.1894e-9'))                     # loss-free trap (resonant near 4.6 MHz)
     M.append(('--bogus-option', '1'))
     return M
 
@@ -135,6 +142,20 @@ def apply_dev(argv, opt, val):
     argv = list(argv)
     if val is None:
         return argv + [opt]
+    if opt == 'DUP-FIRST-WIRE':
+        i = argv.index('-w')
+        v = argv[i + 1].split(',')
+        tag = v[:-8]
+        n, c, r = v[-8], v[-7:-1], v[-1]
+        if val == 'reversed':
+            c = c[3:] + c[:3]
+        if val == 'half':
+            c = c[:3] + [repr((float(a) + float(b)) / 2) for a, b in zip(c[:3], c[3:])]
+        return argv + ['-w', ','.join([n] + c + [r])]
+    if opt.endswith('+'):
+        o = opt[:-1]
+        extra = ['--attach-load=%d,1' % (1 + sum(1 for a in argv if a.startswith(('--load', '--rlc-load', '--trap-load', '--laplace-load-a'))))] if 'load' in o else []
+        return argv + ([o + '=' + val] if o.startswith('--') else [o, val]) + extra
     alias = {'-f': '--frequency', '-w': '--wire', '-a': '--arc', '-H': '--helix'}
     for i, a in enumerate(argv):
         if a == opt and i + 1 < len(argv):
